@@ -16,6 +16,10 @@ def run(ctx):
     ecu.timer_rules(ctx)
     ctx.rule("R-WAKE-NONBLOCK", "add_timer / remove_timer from inside a timer callback cannot block the job thread on its own wake-up queue", floor=1)
     ecu.wake_nonblocking(ctx)
+    ctx.rule("R-TIMER-SCAN-ALL", "the timer pass examines every registered timer (no early exit from the scan over an unordered list)", floor=1)
+    ecu.timer_scan_all(ctx)
+    ctx.rule("R-WAKE-CONSUME", "a timer added while a pass is running keeps its wake-up token (it is not drained before the sleep)", floor=1)
+    ecu.wake_consume(ctx)
     from rules import timing as TM
     ctx.rule("R-WAKEUP-MIN", "the timer pass keeps the earliest pending deadline as its next wake-up", floor=1)
     TM.wakeup_min(ctx, ctx.prog.func("ElectronicControlUnit", "_async_job_thread"), tag="ECU ")
